@@ -29,10 +29,11 @@ VARIABLES order,      \* all tag names that can occur, sorted (Go string order)
           amb,        \* Ref: per-sink "reference not unique from here on"
           keeps,      \* Ref: deviation groupby-keeps-bymeasurement is in force
           kfhit,      \* Ref: known-finding keys this trace exercised
+          nerrs,      \* Ref: per node, evaluation errors it must have reported (where/eval/state*)
           \* Impl only
           fed, queue, ist, store, nextId, seen
 
-rvars == <<order, src, nodes, nst, acc, amb, keeps, kfhit>>
+rvars == <<order, src, nodes, nst, acc, amb, keeps, kfhit, nerrs>>
 ivars == <<fed, queue, ist, store, nextId, seen>>
 vars == <<rvars, ivars>>
 
@@ -130,7 +131,9 @@ FromSource(s, in) ==
 (* time.Round(d) relative to an epoch that is a multiple of d (half up).    *)
 RoundT(t, d) == IF d = 0 THEN t ELSE ((2 * t + d) \div (2 * d)) * d
 
-R(st, out) == [st |-> st, out |-> out, amb |-> FALSE, kf |-> {}]
+R(st, out) == [st |-> st, out |-> out, amb |-> FALSE, kf |-> {}, err |-> 0]
+RE(st, out, e) == [st |-> st, out |-> out, amb |-> FALSE, kf |-> {}, err |-> e]
+CountIf(s, T(_)) == Len(SelectSeq(s, T))
 (* FoldLeft with a state and concatenated outputs.                          *)
 FoldPts(F(_, _), st0, s) ==
     FoldLeft(LAMBDA a, x : LET r == F(a.st, x) IN [st |-> r.st, out |-> a.out \o r.out],
@@ -143,8 +146,9 @@ FoldPts(F(_, _), st0, s) ==
 (* ---- where: keep the points whose predicate is true; an evaluation      *)
 (* error drops the point.  A batch is always forwarded (possibly empty).    *)
 WhereOp(n, st, m) ==
-    IF m.mk = "p" THEN R(st, IF Pass(n.lam, m) THEN <<m>> ELSE <<>>)
-    ELSE R(st, <<[m EXCEPT !.pts = SelectSeq(m.pts, LAMBDA q : Pass(n.lam, q))]>>)
+    IF m.mk = "p" THEN RE(st, IF Pass(n.lam, m) THEN <<m>> ELSE <<>>, IF Pred(n.lam, m.tags, m.fields) = "E" THEN 1 ELSE 0)
+    ELSE RE(st, <<[m EXCEPT !.pts = SelectSeq(m.pts, LAMBDA q : Pass(n.lam, q))]>>,
+            CountIf(m.pts, LAMBDA q : Pred(n.lam, q.tags, q.fields) = "E"))
 
 (* ---- eval: expressions in order, results visible to later expressions    *)
 (* under their as() name (a result shadows a field/tag of the same name);   *)
@@ -192,10 +196,12 @@ EvalRes(n, tags, fields) ==
 EvalOp(n, st, m) ==
     IF m.mk = "p"
     THEN LET r == EvalRes(n, m.tags, m.fields)
-         IN R(st, IF r.ok THEN <<Regroup([m EXCEPT !.tags = r.tags, !.fields = r.fields])>> ELSE <<>>)
+         IN RE(st, IF r.ok THEN <<Regroup([m EXCEPT !.tags = r.tags, !.fields = r.fields])>> ELSE <<>>,
+               IF r.ok \/ n.quiet THEN 0 ELSE 1)
     ELSE LET F(q) == LET r == EvalRes(n, q.tags, q.fields)
                      IN IF r.ok THEN <<BP(r.tags, r.fields, q.t)>> ELSE <<>>
-         IN R(st, <<[m EXCEPT !.pts = FlattenSeq([i \in DOMAIN m.pts |-> F(m.pts[i])])]>>)
+         IN RE(st, <<[m EXCEPT !.pts = FlattenSeq([i \in DOMAIN m.pts |-> F(m.pts[i])])]>>,
+               IF n.quiet THEN 0 ELSE CountIf(m.pts, LAMBDA q : ~EvalRes(n, q.tags, q.fields).ok))
 
 (* ---- default: set missing fields, and tags that are missing or empty.    *)
 (* On a batch the group tags are defaulted too and the dimensions follow    *)
@@ -281,8 +287,10 @@ CountPt(n, c, q) ==
     ELSE [st |-> c + 1, out |-> <<[q EXCEPT !.fields = Put(q.fields, n.as, IntV(c + 1))]>>]
 StateCountOp(n, st, m) ==
     IF m.mk = "p"
-    THEN LET r == CountPt(n, GetOr(st, m.group, 0), m) IN R(Put(st, m.group, r.st), r.out)
-    ELSE LET r == FoldPts(LAMBDA s, q : CountPt(n, s, q), 0, m.pts) IN R(st, <<[m EXCEPT !.pts = r.out]>>)
+    THEN LET r == CountPt(n, GetOr(st, m.group, 0), m)
+         IN RE(Put(st, m.group, r.st), r.out, IF Pred(n.lam, m.tags, m.fields) = "E" THEN 1 ELSE 0)
+    ELSE LET r == FoldPts(LAMBDA s, q : CountPt(n, s, q), 0, m.pts)
+         IN RE(st, <<[m EXCEPT !.pts = r.out]>>, CountIf(m.pts, LAMBDA q : Pred(n.lam, q.tags, q.fields) = "E"))
 
 NoStart == [has |-> FALSE, t |-> 0]
 DurPt(n, s, q) ==
@@ -294,8 +302,10 @@ DurPt(n, s, q) ==
              out |-> <<[q EXCEPT !.fields = Put(q.fields, n.as, FloatV(ExactDiv((q.t - start) * Scale, n.unit)))]>>]
 StateDurationOp(n, st, m) ==
     IF m.mk = "p"
-    THEN LET r == DurPt(n, GetOr(st, m.group, NoStart), m) IN R(Put(st, m.group, r.st), r.out)
-    ELSE LET r == FoldPts(LAMBDA s, q : DurPt(n, s, q), NoStart, m.pts) IN R(st, <<[m EXCEPT !.pts = r.out]>>)
+    THEN LET r == DurPt(n, GetOr(st, m.group, NoStart), m)
+         IN RE(Put(st, m.group, r.st), r.out, IF Pred(n.lam, m.tags, m.fields) = "E" THEN 1 ELSE 0)
+    ELSE LET r == FoldPts(LAMBDA s, q : DurPt(n, s, q), NoStart, m.pts)
+         IN RE(st, <<[m EXCEPT !.pts = r.out]>>, CountIf(m.pts, LAMBDA q : Pred(n.lam, q.tags, q.fields) = "E"))
 
 (* ---- flatten: the points of a group with the same (rounded) time become  *)
 (* one point whose fields are named <tag values joined>.<field>; a point    *)
@@ -469,21 +479,22 @@ Amb0(s, ns) ==
 
 OpSeq(n, st, ms, kp) ==
     FoldLeft(LAMBDA a, m : LET r == Op(n, a.st, m, kp)
-                           IN [st |-> r.st, out |-> a.out \o r.out, amb |-> a.amb \/ r.amb, kf |-> a.kf \cup r.kf],
-             [st |-> st, out |-> <<>>, amb |-> FALSE, kf |-> {}], ms)
+                           IN [st |-> r.st, out |-> a.out \o r.out, amb |-> a.amb \/ r.amb, kf |-> a.kf \cup r.kf, err |-> a.err + r.err],
+             [st |-> st, out |-> <<>>, amb |-> FALSE, kf |-> {}, err |-> 0], ms)
 
 (* One source message through the whole tree (parents before children).     *)
 Through(in) ==
     LET N == Len(nodes)
         X[i \in 0..N] ==
-          IF i = 0 THEN [nst |-> nst, outs |-> << <<FromSource(src, in)>> >>, amb |-> amb, kf |-> {}]
+          IF i = 0 THEN [nst |-> nst, outs |-> << <<FromSource(src, in)>> >>, amb |-> amb, kf |-> {}, errs |-> nerrs]
           ELSE LET p == X[i - 1]
                    par == nodes[i].parent + 1
                    r == OpSeq(nodes[i], p.nst[i], p.outs[par], keeps)
                IN [nst |-> [p.nst EXCEPT ![i] = r.st],
                    outs |-> Append(p.outs, r.out),
                    amb |-> [p.amb EXCEPT ![i + 1] = @ \/ p.amb[par] \/ r.amb],
-                   kf |-> p.kf \cup r.kf]
+                   kf |-> p.kf \cup r.kf,
+                   errs |-> [p.errs EXCEPT ![i] = @ + r.err]]
     IN X[N]
 
 RefStart(s, ns, ord, kp) ==
@@ -492,12 +503,14 @@ RefStart(s, ns, ord, kp) ==
     /\ acc' = [i \in 1..(Len(ns) + 1) |-> <<>>]
     /\ amb' = Amb0(s, ns)
     /\ kfhit' = {}
+    /\ nerrs' = [i \in 1..Len(ns) |-> 0]
 RefFeed(in) ==
     LET x == Through(in) IN
     /\ nst' = x.nst
     /\ acc' = [i \in DOMAIN acc |-> acc[i] \o x.outs[i]]
     /\ amb' = x.amb
     /\ kfhit' = kfhit \cup x.kf
+    /\ nerrs' = x.errs
     /\ UNCHANGED <<order, src, nodes, keeps>>
 
 (* Shape of everything a sink can see.                                      *)
@@ -525,6 +538,7 @@ Init ==
     \E pi \in DOMAIN Pipes :
         /\ src = Pipes[pi].src /\ nodes = Pipes[pi].nodes /\ order = Pipes[pi].order
         /\ keeps = FALSE /\ kfhit = {}
+        /\ nerrs = [i \in 1..Len(Pipes[pi].nodes) |-> 0]
         /\ nst = [i \in 1..Len(Pipes[pi].nodes) |-> <<>>]
         /\ acc = [i \in 1..(Len(Pipes[pi].nodes) + 1) |-> <<>>]
         /\ amb = [i \in 1..(Len(Pipes[pi].nodes) + 1) |-> FALSE]
